@@ -147,7 +147,7 @@ func (commander *Commander) exec(ctx context.Context, parameters Parameters, scr
 			WithPostings(result.Postings...).
 			WithMetadata(result.Metadata).
 			WithDate(script.Timestamp).
-			WithID(commander.nextTXID()).
+			WithID(commander.nextTXID(parameters.DryRun)).
 			WithReference(script.Reference)
 		verifhook.Yield(ctx, "exec.txid")
 
@@ -295,12 +295,15 @@ func (commander *Commander) chainLog(log *ledger.Log) *ledger.ChainedLog {
 	return commander.lastLog
 }
 
-func (commander *Commander) nextTXID() *big.Int {
+// nextTXID allocates the next transaction id; a dry run only previews it.
+func (commander *Commander) nextTXID(dryRun bool) *big.Int {
 	commander.mu.Lock()
 	defer commander.mu.Unlock()
 
 	ret := big.NewInt(0).Add(commander.lastTXID, big.NewInt(1))
-	commander.lastTXID = ret
+	if !dryRun {
+		commander.lastTXID = ret
+	}
 
 	return ret
 }
